@@ -222,6 +222,9 @@ def run(rep):
     # seeding rules, evaluated in the same run)
     from common import include
     include(rep, 'c03', ('C03.1', 'C03.2', 'C03.3'), 'stage-walk')
+    # the section reaches the assembled output unconditionally (shared rule, lib/sections.py)
+    from sections import check_wiring
+    check_wiring(rep, 'C13.section-wiring', ['PushConstantRange', 'PUSH_CONSTANT_STAGES', 'create_pipeline_layout'], 'push-constant-sections')
 
 
 def contains(t, sub):
